@@ -1,14 +1,14 @@
 #!/bin/bash
-# tools/try_seed.sh <seed-dir-name> <ID> [<ID> ...] : apply seeded/<name>/patch.diff to /repo, run quick checks, restore
+# tools/try_seed.sh <seed-dir-name> <ID> [<ID> ...] : run quick checks against a scratch worktree of /repo carrying
+# seeded/<name>/patch.diff (PYNAPPLE_REPO); /repo itself is not touched; evidence goes to .work/seed_evidence
 name=$1; shift
 cd /verif
-git -C /repo diff --quiet || { echo "/repo has uncommitted changes"; exit 3; }
-git -C /repo apply /verif/seeded/$name/patch.diff || exit 3
-export VERIF_EVIDENCE_DIR=/verif/.work/seed_evidence   # never overwrite the committed evidence with a mutated run
+exec 9>/verif/.cache/seed.lock; flock 9     # PynGen tables and the lake build are shared: one trial at a time
+WT=/tmp/seedtrial_$$
+git -C /repo worktree add -q --detach $WT HEAD || exit 3
+trap 'git -C /repo worktree remove --force '$WT' 2>/dev/null; rm -rf '$WT'; unset PYNAPPLE_REPO; python3 /verif/tools/extract_npz_keys.py >/dev/null; python3 /verif/tools/extract_unit_sites.py >/dev/null; python3 /verif/tools/extract_inplace_sites.py >/dev/null' EXIT
+git -C $WT apply /verif/seeded/$name/patch.diff || { echo "$name DOES-NOT-APPLY"; exit 3; }
+export PYNAPPLE_REPO=$WT VERIF_EVIDENCE_DIR=/verif/.work/seed_evidence
 for id in "$@"; do
   ./check $id quick 2>&1 | tail -3
-  echo "exit=$?"
 done
-git -C /repo checkout -- .
-# regenerated tables must describe the clean tree again
-python3 /verif/tools/extract_npz_keys.py >/dev/null; python3 /verif/tools/extract_unit_sites.py >/dev/null
